@@ -33,7 +33,7 @@ func (c07) Assumptions() []string {
 	}
 }
 func (c07) Required(tier string) []string {
-	return []string{"H-decline", "H-consume", "H-nested", "malformed-member-declined", "null-root", "deep-root", "reused-buffer", "buffer-used-on-deeper-document-before"}
+	return []string{"H-decline", "H-consume", "H-nested", "malformed-member-declined", "null-root", "deep-root", "reused-buffer", "buffer-used-on-deeper-document-before", "every-cut-or-overwrite-position-of-one-document"}
 }
 
 // genContainerDoc generates a document whose first value is a container of the
@@ -102,6 +102,13 @@ func genTraversalDoc(r *Rand, obj bool, deepOK bool) Doc {
 		return docOf(genTreeBytes(r, 60), "any-root")
 	case 4:
 		n := []int{100, 1000, 9999, 10000}[r.Intn(4)]
+		if r.Chance(1, 2) {
+			root := 1
+			if obj {
+				root = 2
+			}
+			return deepDocAny(r, n, []string{"1", `"x"`, "[]", "{}", "nul", "1e5", "[0,[]]"}[r.Intn(7)], root)
+		}
 		mix := []int{0, 2, 3}[r.Intn(3)]
 		if obj {
 			mix = []int{1, 1, 1}[r.Intn(3)]
@@ -152,6 +159,58 @@ func (c07) Gen(r *Rand, sc *Scenario, tier string) {
 		sc.Cfg["enum"] = n
 		return
 	}
+	if sc.Index%16 == 1 {
+		// cut sweep: one small, richly nested container, traversed at EVERY truncation point (and, for
+		// every second scenario of this kind, with one control byte / stray structural byte written over
+		// every position instead): the end of input and a bad byte meet every state of the machines
+		obj := (sc.Index/16)%2 == 1
+		cfg := randCfg(r, 140)
+		cfg.maxDepth = r.Range(2, 5)
+		var b bytes.Buffer
+		open, cl := byte('['), byte(']')
+		if obj {
+			open, cl = '{', '}'
+		}
+		b.WriteByte(open)
+		for i, n := 0, r.Range(2, 5); i < n; i++ {
+			if i > 0 {
+				b.WriteByte(',')
+			}
+			if obj {
+				genKey(r, &b, cfg)
+				b.WriteByte(':')
+			}
+			genValue(r, &b, cfg, 1)
+		}
+		b.WriteByte(cl)
+		full := b.Bytes()
+		if len(full) > 160 {
+			full = full[:160]
+		}
+		overwrite := (sc.Index/32)%2 == 1
+		tape := genDecisionTape(r, 40, true)
+		if r.Chance(1, 2) {
+			tape = nil // decline everything: the embedded skippers validate every byte
+		}
+		for i := 0; i <= len(full); i++ {
+			var d Doc
+			if overwrite {
+				if i == len(full) {
+					break
+				}
+				nb := append([]byte(nil), full...)
+				nb[i] = []byte{0x00, 0x1f, '\n', '"', '\\', ',', ':', '}', ']', '[', '{', 'e', 'E', '.', '-', '0', 0x80}[r.Intn(17)]
+				d = docOf(nb, "sweep-overwrite")
+			} else {
+				d = docCut(r, full, full[:i], "sweep-cut")
+			}
+			sc.Docs = append(sc.Docs, d)
+			ops = append(ops, Op{Kind: kindName(obj), Doc: len(sc.Docs) - 1, Tape: tape, A: r.Intn(2), B: r.Intn(2)})
+		}
+		sc.Tasks = [][]Op{ops}
+		sc.Cfg["sweep"] = 1
+		return
+	}
 	for i := 0; i < nops; i++ {
 		obj := r.Chance(1, 2)
 		sc.Docs = append(sc.Docs, genTraversalDoc(r, obj, true))
@@ -186,6 +245,9 @@ func travKind(kind string) string {
 
 func (c07) Exec(sc *Scenario, st *Stats) *Violation {
 	shared := &rjson.Buffer{}
+	if sc.cfg("sweep") == 1 {
+		st.probe("every-cut-or-overwrite-position-of-one-document")
+	}
 	for oi, op := range sc.Tasks[0] {
 		doc := sc.Docs[op.Doc].Bytes()
 		if len(doc) <= 1<<16 {
